@@ -460,6 +460,11 @@ unsafe fn dispose_general_node<T: RcObject>(
                 continue;
             }
 
+            // The epoch may have advanced while the previous children were being disposed:
+            // stamps are compared in a window anchored at the current epoch.
+            let curr_epoch = global_epoch();
+            let modu: Modular<EPOCH_WIDTH> = Modular::new(curr_epoch as isize + 1);
+
             let next_ptr = next.into_raw();
             let next_ref = next_ptr.deref();
             let link_epoch = next_ptr.high_tag() as u32;
